@@ -25,6 +25,9 @@ type Eval struct {
 	bindT  map[string]types.Type
 	callee bool
 	inOld  bool
+	// fresh(x) means "allocated at or after this frontier": the call-time frontier when a callee's
+	// postcondition is assumed, the entry frontier of the function under verification otherwise
+	freshBase *Term
 	qn     int
 }
 
@@ -661,7 +664,10 @@ func (ev *Eval) callExpr(n *ast.CallExpr) Value {
 	case "feq":
 		return &Prim{T: app(SBool, "f_eq", ev.fterm(n.Args[0]), ev.fterm(n.Args[1]))}
 	case "fresh":
-		fc := x.curFunc
+		fc := &FuncCtx{alloc0: x.curFunc.alloc0}
+		if ev.freshBase != nil {
+			fc.alloc0 = *ev.freshBase
+		}
 		var cs []Term
 		for _, a := range n.Args {
 			switch w := ev.eval(a).(type) {
@@ -713,6 +719,22 @@ func (ev *Eval) callExpr(n *ast.CallExpr) Value {
 			ev.fail("istype: unknown type %s", ts)
 		}
 		return &Prim{T: Eq(iv.Tag, x.typeTag(t))}
+	case "cast":
+		// cast(x, *T): the pointer payload of interface value x viewed as *T
+		iv, ok := ev.eval(n.Args[0]).(*IfaceV)
+		if !ok {
+			ev.fail("cast on non-interface")
+		}
+		ts := x.prog.cs.expand(strings.ReplaceAll(exprString(n.Args[1]), " ", ""))
+		t := x.prog.lookupType(ts)
+		if t == nil {
+			ev.fail("cast: unknown type %s", ts)
+		}
+		pt, isPtr := t.(*types.Pointer)
+		if !isPtr {
+			return x.unbox(ev.st, iv.Data, t)
+		}
+		return &PtrV{Loc: &Loc{Kind: LObj, Ref: iv.Data, Root: pt.Elem(), Typ: pt.Elem()}, Elem: pt.Elem()}
 	case "isnil":
 		v := ev.eval(n.Args[0])
 		return &Prim{T: x.valuesEqual(ev.st, v, &PtrV{Loc: nil}, nil)}
@@ -739,6 +761,21 @@ func (ev *Eval) callExpr(n *ast.CallExpr) Value {
 			ev.fail("has(map, key)")
 		}
 		return &Prim{T: x.mapHas(ev.st, m, ev.term(n.Args[1]))}
+	case "callres":
+		// callres("callee key", n [, i]): i-th result of the n-th call of callee on this path
+		s, _ := strconv.Unquote(exprString(n.Args[0]))
+		key := x.prog.cs.expand(s)
+		nn, _ := isIntLit(ev.term(n.Args[1]))
+		rs := ev.fr.callRes[key]
+		if nn < 1 || int(nn) > len(rs) || rs[nn-1] == nil {
+			ev.fail("callres: no call #%d of %s on this path", nn, key)
+		}
+		res := rs[nn-1]
+		if len(n.Args) == 3 {
+			i, _ := isIntLit(ev.term(n.Args[2]))
+			return res.(*TupleV).E[i]
+		}
+		return res
 	case "funcid":
 		// funcid("pkg.(*T).name$1") : identity of a function / closure
 		s, _ := strconv.Unquote(exprString(n.Args[0]))
@@ -748,6 +785,30 @@ func (ev *Eval) callExpr(n *ast.CallExpr) Value {
 			ev.fail("funcid: unknown function %s", k)
 		}
 		return &Prim{T: x.funcID(fn)}
+	}
+	if pd, ok := x.prog.cs.Preds[name]; ok {
+		if len(pd.Params) != len(n.Args) {
+			ev.fail("pred %s expects %d arguments", name, len(pd.Params))
+		}
+		vals := make([]Value, len(n.Args))
+		for i, a := range n.Args {
+			vals[i] = ev.eval(a)
+		}
+		saved := map[string]Value{}
+		had := map[string]bool{}
+		for i, p := range pd.Params {
+			saved[p], had[p] = ev.bind[p]
+			ev.bind[p] = vals[i]
+		}
+		res := ev.eval(pd.Expr)
+		for _, p := range pd.Params {
+			if had[p] {
+				ev.bind[p] = saved[p]
+			} else {
+				delete(ev.bind, p)
+			}
+		}
+		return res
 	}
 	if sel, ok := n.Fun.(*ast.SelectorExpr); ok {
 		if v, ok := ev.methodCall(sel, n.Args); ok {
